@@ -405,3 +405,35 @@ func VH_C16_copy_bit_list() {
 		vAssert(BitList{p.List()}.At(j) == (j == i), "C16.bitlist.bits")
 	}
 }
+
+// a struct list viewed as a pointer list (the first pointer of every element): Set writes the
+// element's pointer FIELD - its data words stay what they were - and At reads it back
+func VH_C16_pointer_view_of_struct_list() {
+	_, seg := vNewMsg()
+	l, err := NewCompositeList(seg, ObjectSize{DataSize: 8, PointerCount: 1}, 2)
+	vAssume(err == nil)
+	var w [2]uint64
+	for i := 0; i < 2; i++ {
+		w[i] = vNondetU64()
+		l.Struct(i).SetUint64(0, w[i])
+	}
+	k := vConc(int(vNondetU8()), 2)
+	b := vNondetU8()
+	d, err := NewData(seg, []byte{b})
+	vAssume(err == nil)
+	err = PointerList{l}.Set(k, d.ToPtr())
+	vReach("set")
+	vAssert(err == nil, "C16.ptrview.set-ok")
+	if err != nil {
+		return
+	}
+	for i := 0; i < 2; i++ {
+		vAssert(l.Struct(i).Uint64(0) == w[i], "C16.ptrview.data-words-untouched")
+	}
+	p, err := l.Struct(k).Ptr(0)
+	vAssert(err == nil && len(p.Data()) == 1 && p.Data()[0] == b, "C16.ptrview.pointer-field-holds-the-value")
+	q, err := PointerList{l}.At(k)
+	vAssert(err == nil && len(q.Data()) == 1 && q.Data()[0] == b, "C16.ptrview.reads-back")
+	o, err := l.Struct(1 - k).Ptr(0)
+	vAssert(err == nil && !o.IsValid(), "C16.ptrview.other-element-untouched")
+}
